@@ -150,7 +150,9 @@ def main(args):
     from contracts import layout
     pool.run_targets(run, "contracts.layout", list(layout.TARGETS))
     frame_obligations(run)
-    from contracts import attrs
+    from contracts import attrs, layout2
+    pool.run_targets(run, "contracts.layout2", list(layout2.TARGETS))
+    run.function("compiler.front_end.constraints._check_type_requirements_for_field", "pyvc: explicit size vs fixed size vs field size (contracts/layout2.py)")
     pool.run_targets(run, "contracts.attrs", list(attrs.TARGETS))
     for f in attrs.FUNCTIONS:
         run.function("compiler.front_end.attribute_checker." + f, "pyvc: body executed symbolically against sidecar contract (contracts/attrs.py)")
@@ -169,6 +171,9 @@ def main(args):
         sym = toks[0].symbol
         if sym == "SnakeWord":
             cs.append(("reserved-field:" + w, HDR + "struct Foo:\n  0 [+1]  UInt  %s\n" % w, False))
+            # every kind of name a snake_case word can be: virtual field, abbreviation, run-time parameter
+            cs.append(("reserved-virtual-field:" + w, HDR + "struct Foo:\n  0 [+1]  UInt  xx\n  let %s = xx + 1\n" % w, False))
+            cs.append(("reserved-parameter:" + w, HDR + "struct Foo(%s: UInt:8):\n  0 [+1]  UInt  xx\n" % w, False))
             n_words += 1
         elif sym == "CamelWord":
             cs.append(("reserved-type:" + w, HDR + "struct %s:\n  0 [+1]  UInt  x\n" % w, False))
